@@ -1,0 +1,34 @@
+//go:build verif
+
+package verifapi
+
+import (
+	"github.com/deepteams/webp/internal/lossless"
+	"github.com/deepteams/webp/internal/lossy"
+)
+
+// Re-exports for the codec front ends (property C05, codec part).
+
+type VP8Front = lossy.VerifFront
+type VP8Decoder = lossy.Decoder
+
+// VP8FrontOf is lossy.VerifVP8Front: parseHeaders + initFrame of the real
+// decoder (dec == nil: a fresh one).
+func VP8FrontOf(dec *VP8Decoder, data []byte) (*VP8Front, error) {
+	return lossy.VerifVP8Front(dec, data)
+}
+
+// VP8DirtyDecoder is lossy.VerifNewDirtyDecoder.
+func VP8DirtyDecoder(mbW, mbH int) *VP8Decoder { return lossy.VerifNewDirtyDecoder(mbW, mbH) }
+
+// VP8FrontErrClass is lossy.VerifFrontErrClass.
+func VP8FrontErrClass(err error) string { return lossy.VerifFrontErrClass(err) }
+
+type VP8LFront = lossless.VerifLFront
+
+// VP8LFrontOf is lossless.VerifVP8LFront (not safe for concurrent use with
+// other lossless decodes).
+func VP8LFrontOf(data []byte) (*VP8LFront, error) { return lossless.VerifVP8LFront(data) }
+
+// VP8LFrontErrClass is lossless.VerifLFrontErrClass.
+func VP8LFrontErrClass(err error) string { return lossless.VerifLFrontErrClass(err) }
